@@ -5,7 +5,7 @@
 #include <stdlib.h>
 #include "libeconf.h"
 #include "keyfile.h"
-static const char *G[3] = { NULL, "A", "B" };
+static const char *G[3] = { NULL, "AB", "A" };
 static int leading(const char *s) { int seen = 0; for (; *s; s++) { if (*s != '0') seen = 1; else if (seen) return 0; } return 1; }
 static econf_file *build(const char *shape, const char *keys, int kind, const char *pfx, const char *dir)
 {
@@ -16,7 +16,7 @@ static econf_file *build(const char *shape, const char *keys, int kind, const ch
     FILE *f = fopen(path, "w"); char prev = '0';
     for (size_t i = 0; shape[i]; i++) {
       if (shape[i] != prev) { fprintf(f, "[%s]\n", G[shape[i] - '0']); prev = shape[i]; }
-      fprintf(f, "%c=%s%zu\n", keys[i], pfx, i);
+      fprintf(f, "%s=%s%zu\n", keys[i] == 'x' ? "x" : "xy", pfx, i);
     }
     fclose(f);
     if (econf_readFile(&ef, path, "=", "#")) { printf("READ-FAILED\n"); exit(3); }
@@ -24,8 +24,8 @@ static econf_file *build(const char *shape, const char *keys, int kind, const ch
   }
   econf_newKeyFile(&ef, '=', '#');
   for (size_t i = 0; shape[i]; i++) {
-    char k[2] = { keys[i], 0 }, v[16]; snprintf(v, sizeof v, "%s%zu", pfx, i);
-    econf_setStringValue(ef, G[shape[i] - '0'], k, v);
+    char v[16]; snprintf(v, sizeof v, "%s%zu", pfx, i);
+    econf_setStringValue(ef, G[shape[i] - '0'], keys[i] == 'x' ? "x" : "xy", v);
   }
   return ef;
 }
